@@ -267,7 +267,12 @@ class C09(Prop):
                 for vv in list(m.images):
                     m[vv]
                 reads_ok = ids1 == ids2 and F.snap_cells(m.images) == cells_now and [x for d in m.images.values() for c in d.values() for x in c] == filed
-                steps.append({"res": res, "version_before": before, "version": m.header.version, "cells": cells_now, "reads_ok": reads_ok})
+                # which OBJECTS sit in each cell: pool index for the history's own objects, -1 for objects created by loads
+                # (sets hold objects by identity: an equal-looking loaded image is another object)
+                pool_idx = dict((id(x), i) for i, x in enumerate(objs))
+                idcells = dict((vv, dict((aa, sorted(pool_idx.get(id(x), -1) for x in c)) for aa, c in d.items())) for vv, d in m.images.items())
+                steps.append({"res": res, "version_before": before, "version": m.header.version, "cells": cells_now, "reads_ok": reads_ok,
+                              "idcells": idcells})
                 if o[0] == "loads" and res != "ok":
                     break                                   # a failed loads leaves the object half updated: histories end there
             return {"steps": steps}
@@ -386,7 +391,10 @@ class C09(Prop):
                 return [r for d in cells.values() for c in d.values() for r in c]
             def bad_pairs(cells):
                 return sorted(json.dumps(sorted(p)) for p in F.uniq_violations(recs(cells)))
+            def sorted_cells(cells):
+                return dict((vv, dict((aa, sorted(c, key=F.rec_key)) for aa, c in d.items())) for vv, d in cells.items())
             prev = {}
+            prev_ids = {}
             for k, (o, st) in enumerate(zip(a["ops"], real_out["steps"])):
                 ctx = {"step": k, "op": o if o[0] != "loads" else ["loads", "<document of format %s>" % o[1]["header"]["version"]],
                        "header_before": st["version_before"], "header_after": st["version"], "result": st["res"],
@@ -415,13 +423,19 @@ class C09(Prop):
                             return {"kind": "wrong-filing", "observed": ctx, "required": "the image is filed under the given variant and arch, nothing else changes"}
                     step_enforces = enforce
                 elif o[0] in ("discard", "del_variant"):
+                    # discard removes the OBJECT (identity), not every image that looks like it: an image created by loads with
+                    # the same attributes as a pool object is untouched by discard(pool object)
                     want = copy.deepcopy(prev)
+                    want_ids = copy.deepcopy(prev_ids)
                     if o[0] == "del_variant":
-                        want.pop(o[1], None)
-                    elif o[1] in want and o[2] in want[o[1]]:
-                        want[o[1]][o[2]] = [r for r in want[o[1]][o[2]] if r != a["pool"][o[3]]] if a["pool"][o[3]] in want[o[1]][o[2]] else want[o[1]][o[2]]
-                    if checklib.canon(st["cells"]) != checklib.canon(want):
-                        return {"kind": "wrong-removal", "observed": ctx, "required": "exactly the removed image / variant is gone"}
+                        want.pop(o[1], None); want_ids.pop(o[1], None)
+                    elif o[3] in prev_ids.get(o[1], {}).get(o[2], []):
+                        want_ids[o[1]][o[2]].remove(o[3])
+                        want[o[1]][o[2]].remove(a["pool"][o[3]])           # one occurrence: the object's own record
+                    ctx["objects_before"] = prev_ids
+                    ctx["objects_after"] = st["idcells"]
+                    if st["idcells"] != want_ids or checklib.canon(sorted_cells(st["cells"])) != checklib.canon(sorted_cells(want)):
+                        return {"kind": "wrong-removal", "observed": ctx, "required": "exactly the removed image object / variant is gone"}
                     step_enforces = False
                 elif o[0] in ("dumps", "set_version"):
                     if st["cells"] != prev:
@@ -440,6 +454,7 @@ class C09(Prop):
                 if o[0] == "loads" and st["res"] != "ok":
                     break
                 prev = st["cells"]
+                prev_ids = st["idcells"]
             return None
         if case["op"] == "load":
             doc = F.dec(a["doc"])
